@@ -5,6 +5,7 @@ resolution, child iteration, a source-like printer and a few classification
 helpers (macro provenance, divergence, callee matching).
 """
 import json
+import os
 import re
 
 CHILD_KEYS_EXPR = (
@@ -29,6 +30,12 @@ class Body:
         self.pub = raw.get("pub", False)
         self.params = raw.get("params", [])
         self.body = raw["body"]
+        if os.environ.get("VERIF_NO_ASTNORM") != "1":
+            try:
+                import astnorm
+                self.body = astnorm.normalize_body(self.body)
+            except RecursionError:
+                pass
         P = facts.paths
         T = facts.types
         self.in_trait = P[raw["in_trait"]] if "in_trait" in raw else None
